@@ -5,6 +5,7 @@ import torch
 
 from .. import dense as dn
 from .. import walk
+from .. import gens
 
 PROP = 'C05'
 DECIDES = 'WF'
@@ -20,7 +21,7 @@ ASSUMPTIONS = ['TT(None) (the documented empty placeholder) has no dense value a
 REQUIRED_REACH = ['_tt_base:TT.__init__', '_tt_base:TT.set_core', '_tt_base:TT.reduce_dims', '_tt_base:TT.__getitem__', '_tt_base:TT.round', '_extras:reshape', '_extras:permute',
                   '_dmrg:dmrg_matvec_python', '_dmrg:dmrg_hadamard_python', '_amen:_amen_mm_python', 'solvers:_amen_solve_python', '_division:amen_divide', 'interpolate:dmrg_cross',
                   'interpolate:function_interpolate', 'manifold:riemannian_projection', '_tt_base:TT.to_qtt', '_tt_base:TT.qtt_to_tens', '_extras:cat', '_extras:pad']
-REQUIRED_COUNTS = {'wf_checks': 2000, 'quiescent_points': 1000, 'step_returned': 500, 'op:set_core': 5, 'op:reduce_dims': 5}
+REQUIRED_COUNTS = {'copy_then_inplace_histories': 100, 'wf_checks': 2000, 'quiescent_points': 1000, 'step_returned': 500, 'op:set_core': 5, 'op:reduce_dims': 5}
 MIN_NONTRIVIAL = {'quick': 200, 'thorough': 2000}
 CASE_TIMEOUT = {'quick': 240, 'thorough': 600}
 MAX_TIMEOUT_FRACTION = 0.02
@@ -37,6 +38,13 @@ def cases(tier, seed):
     for a in names:
         for b in names:
             cs.append({'gen': 'seq', 'ops': [a, b], 'dtype': 'f64'})
+    # directed: copy-like call, then a documented in-place operation on the copy or on the original; both objects stay in existence
+    for copy in COPIES:
+        for inpl in ('set_core_resize', 'set_core_same', 'reduce_dims', 'scribble'):
+            for target in ('copy', 'original'):
+                for ttm in (False, True):
+                    for rep in range(2 if not T else 8):
+                        cs.append({'gen': 'copyhist', 'copy': copy, 'inplace': inpl, 'target': target, 'ttm': ttm, 'dtype': ['f64', 'c128'][rep % 2], 'views': rep % 2 == 1})
     if T:
         cheap = walk.CHEAP_OPS
         for a in cheap:
@@ -46,8 +54,53 @@ def cases(tier, seed):
     return cs
 
 
+COPIES = ['clone', 'detach', 'cpu', 'to', 'conj', 'neg', 'pos', 'round0', 't_or_slice', 'mul1']
+
+
+def run_copyhist(case, ctx, dt):
+    import torchtt
+    from ..ctx import Raised
+    w = walk.Walker(ctx, case['seed'], dt, views=case.get('views', False))
+    N = [w.rng.choice((1, 2, 3)) for _ in range(w.rng.randint(1, 4))]
+    M = [w.rng.choice((1, 2, 3)) for _ in N] if case['ttm'] else None
+    x = w.fresh(N, M=M)
+    if not isinstance(x, torchtt.TT):
+        return
+    fns = {'clone': lambda a: a.clone(), 'detach': lambda a: a.detach(), 'cpu': lambda a: a.cpu(), 'to': lambda a: a.to(dtype=dt), 'conj': lambda a: a.conj(), 'neg': lambda a: -a,
+           'pos': lambda a: +a, 'round0': lambda a: a.round(0.0), 't_or_slice': (lambda a: a.t()) if case['ttm'] else (lambda a: a[tuple(slice(None) for _ in a.N)]), 'mul1': lambda a: a * 1}
+    y = ctx.lib(case['copy'], fns[case['copy']], x)
+    if not isinstance(y, torchtt.TT):
+        return
+    tgt = y if case['target'] == 'copy' else x
+    k = w.rng.randrange(len(tgt.N))
+    sh = list(tgt.cores[k].shape)
+    if case['inplace'] == 'set_core_resize':
+        sh[1] += w.rng.choice((1, 2))
+        if tgt.is_ttm and w.rng.random() < 0.5:
+            sh[2] += 1
+    if case['inplace'].startswith('set_core'):
+        core = gens.values(sh, tgt.cores[k].dtype, 'gauss', w.g)
+        r = ctx.lib('set_core', lambda a: a.set_core(k, core), tgt, inplace=(tgt,))
+    elif case['inplace'] == 'reduce_dims':
+        r = ctx.lib('reduce_dims', lambda a: a.reduce_dims(), tgt, inplace=(tgt,))
+    else:
+        def scribble(a):
+            for lst in (a.N, a.R, a.M if a.is_ttm else []):      # the lists handed out by the accessors (not the plain attribute .shape)
+                if isinstance(lst, list) and lst:
+                    lst[0] = 7
+        r = ctx.lib('scribble', scribble, tgt)
+    ctx.count('copy_then_inplace_histories')
+    # both objects are used once more (a stale description makes these fail or disagree); the monitors judge the results
+    for o in (x, y):
+        z = ctx.lib('full', lambda a: a.full(), o)
+        z = ctx.lib('TT.add', lambda a: a + a, o)
+    ctx.nontrivial(('copyhist', case['copy'], case['inplace'], case['target'], case['ttm']))
+
+
 def run_case(case, ctx):
     dt = dn.dtype_of(case['dtype'])
+    if case['gen'] == 'copyhist':
+        return run_copyhist(case, ctx, dt)
     if case['gen'] == 'walk':
         w = walk.Walker(ctx, case['seed'], dt, views=case.get('views', False))
         for _ in range(3):
@@ -60,7 +113,9 @@ def run_case(case, ctx):
     else:
         w = walk.Walker(ctx, case['seed'], dt)
         prev = None
+        hold = []      # operands of earlier steps stay in existence (and under the WF monitor) until the end of the sequence
         for name in case['ops']:
+            hold.extend(w.pool)
             if prev is not None:
                 import torchtt
                 w.pool = [prev] if isinstance(prev, torchtt.TT) else []
